@@ -319,3 +319,13 @@ func lowerFirst(s string) string {
 	}
 	return strings.ToLower(s[:1]) + s[1:]
 }
+
+// ghostByName finds a ghost function declared in pkg's contract files.
+func (p *Program) ghostByName(pkg *types.Package, name string) *types.Func {
+	for f := range p.ghost {
+		if f.Name() == name && f.Pkg() == pkg {
+			return f
+		}
+	}
+	return nil
+}
